@@ -3,6 +3,7 @@
 package main
 
 import (
+	"sync"
 	"context"
 	"encoding/json"
 	"fmt"
@@ -21,7 +22,9 @@ import (
 // loader, and for a real package a plain run must mock all its interfaces.
 
 type c18Input struct {
-	State   string `json:"state"`   // absent | empty | content | dir | noparent
+	State   string `json:"state"`   // absent | empty | content | dir | noparent | same | symlink-dangling | symlink-file
+	// several init processes started together on the same (absent) target: exactly one may win
+	Parallel int `json:"parallel,omitempty"`
 	Content string `json:"content"` // for state == content
 	Target  string `json:"target"`  // "" = default .mockery.yml, else --config value (relative to the module)
 	Pkg     string `json:"pkg"`
@@ -47,6 +50,14 @@ func (c18) Generate(c *Ctx) []any {
 			}
 			out = append(out, in)
 		}
+	}
+	for _, st := range []string{"symlink-dangling", "symlink-file"} {
+		for _, tg := range []string{"", "custom.yml"} {
+			out = append(out, c18Input{State: st, Target: tg, Pkg: "example.com/m/foo"})
+		}
+	}
+	for k := 0; k < c.Budget(3, 12); k++ {
+		out = append(out, c18Input{State: "absent", Target: pick(c.Rng, []string{"", "custom.yml"}), Pkg: "example.com/m/foo", Parallel: 4 + c.Rng.Intn(5)})
 	}
 	for _, p := range c18Pkgs {
 		out = append(out, c18Input{State: "absent", Target: "", Pkg: p})
@@ -96,6 +107,13 @@ func (c18) Run(c *Ctx, raw json.RawMessage) Case {
 		os.WriteFile(tpath, []byte(in.Content), 0o644)
 	case "dir":
 		os.MkdirAll(tpath, 0o755)
+	case "symlink-dangling":
+		// the path is taken by a link whose target does not exist (yet): creating "through" it is not creating the file
+		os.MkdirAll(filepath.Dir(tpath), 0o755)
+		os.Symlink(filepath.Join(dir, "shared", "mockery.yml"), tpath)
+	case "symlink-file":
+		os.MkdirAll(filepath.Dir(tpath), 0o755)
+		os.Symlink(filepath.Join(dir, "sub", "keep.txt"), tpath)
 	case "same":
 		// the target already holds exactly what init would write for this package
 		scratch, _ := os.MkdirTemp(c.Work, "c18s-")
@@ -120,9 +138,40 @@ func (c18) Run(c *Ctx, raw json.RawMessage) Case {
 		args = append(args, "--config", in.Target)
 	}
 	args = append(args, "--", in.Pkg) // "--": the package path may start with a dash
-	res := c.runMockery(dir, args, nil)
+	var res RunResult
+	winners := 1
+	if in.Parallel > 1 {
+		results := make([]RunResult, in.Parallel)
+		var wg sync.WaitGroup
+		for k := range results {
+			wg.Add(1)
+			go func(k int) {
+				defer wg.Done()
+				results[k] = c.runMockery(dir, args, nil)
+			}(k)
+		}
+		wg.Wait()
+		winners = 0
+		res = results[0]
+		for _, r := range results {
+			if r.Panicked {
+				res = r
+			}
+			if r.Exit == 0 {
+				winners++
+				if !res.Panicked {
+					res = r
+				}
+			}
+		}
+	} else {
+		res = c.runMockery(dir, args, nil)
+	}
 	after := treeHashes(dir)
 	tags := []string{"state-" + in.State}
+	if in.Parallel > 1 {
+		tags = append(tags, "parallel")
+	}
 	if res.Panicked {
 		return Case{Impl: map[string]any{"panic": true}, Oracle: fail("panic", "init panicked: %s", lastLines(res.Stderr, 5)), Tags: tags}
 	}
@@ -135,6 +184,9 @@ func (c18) Run(c *Ctx, raw json.RawMessage) Case {
 	exit := 0
 	if res.Exit != 0 {
 		exit = 1
+	}
+	if in.Parallel > 1 && winners != 1 {
+		note("exclusive-create", "%d init processes were started together on a free target path: %d of them report success (each believes it created the file)", in.Parallel, winners)
 	}
 	// nothing but the target may change
 	changed := []string{}
